@@ -30,7 +30,7 @@ pub struct EntryResult {
     pub msg: String,
 }
 
-fn run_entry(i: usize, data: &[u8]) -> u8 {
+pub fn run_entry(i: usize, data: &[u8]) -> u8 {
     use erltf::decoder;
     match i {
         0 => erltf::decode(data).is_err() as u8,
